@@ -76,24 +76,20 @@ Theorem C17_recursive_name_exact : forall cur pre n l,
 Proof. exact recursive_name_pattern. Qed.
 Print Assumptions C17_recursive_name_exact.
 
-(* printing then re-parsing a pattern preserves the set of labels it matches *)
-Theorem C17_pattern_reparse_partial : forall cur s p,
-  parse_pattern cur s = Some p -> reprintable p = true ->
+(* printing then re-parsing a pattern preserves the set of labels it matches: every absolute
+   pattern, and every relative one read in a current package that is a package path
+   (no ':', no "...", no trailing slash -- what filepath.Rel produces) *)
+Theorem C17_pattern_reparse : forall cur s p,
+  parse_pattern cur s = Some p -> has_prefix dslash s = true \/ pkg_ok cur = true ->
   forall cur', exists p', parse_pattern cur' (print_pattern p) = Some p' /\
     forall l, matches p' l = matches p l.
 Proof. exact pattern_reparse_matches. Qed.
-Print Assumptions C17_pattern_reparse_partial.
+Print Assumptions C17_pattern_reparse.
 
-Theorem C17_pattern_reparse_abs_partial : forall cur s p,
+(* absolute patterns (the parser strips every trailing slash of the package part): no guard,
+   and the re-parsed pattern is the same pattern *)
+Theorem C17_pattern_reparse_abs : forall cur s p,
   has_prefix dslash s = true -> parse_pattern cur s = Some p ->
-  ends_with ch_slash (pprefix p) = false ->
   forall cur', parse_pattern cur' (print_pattern p) = Some p.
 Proof. exact pattern_reparse_abs. Qed.
-Print Assumptions C17_pattern_reparse_abs_partial.
-
-(* the guard is needed: //a//:x prints as //a/:x, which matches //a:x *)
-Theorem C17_pattern_reparse_refuted :
-  exists p p' l, parse_pattern [] witness_pat = Some p /\
-    parse_pattern [] (print_pattern p) = Some p' /\ matches p l <> matches p' l.
-Proof. exact pattern_reparse_unguarded_refuted. Qed.
-Print Assumptions C17_pattern_reparse_refuted.
+Print Assumptions C17_pattern_reparse_abs.
